@@ -16,6 +16,7 @@
    theorems and non-vacuity examples. *)
 From PlzV Require Import Base.Harness Model.C31 Proof.C31 Proof.C31_Progress.
 From PlzV Require Model.C31_Protocol Proof.C31_Protocol.
+From PlzV Require Model.C31_TempFile Proof.C31_TempFile.
 
 (* Granularity.  The transition system keeps plz-out as a map from LABELS to outputs; that is plz-out
    itself as long as distinct targets write distinct paths.  Two filegroups may legally write the same
@@ -242,6 +243,64 @@ Theorem C31_section_lock_needed :
       /\ C31_Protocol.clash 2 (C31_Protocol.pinit Proof.C31_Protocol.unlocked_kind) = true).
 Proof. exact (conj Proof.C31_Protocol.early_release_clashes Proof.C31_Protocol.unlocked_kind_clashes). Qed.
 Print Assumptions C31_section_lock_needed.
+
+(* A RESOURCE SHARED BETWEEN TARGETS.  The flock is per target; two different filegroups that re-export the same
+   file are different targets writing ONE path, and processes building one each are inside their sections
+   together.  Model/C31_TempFile.v: n processes - any number -, process i holding the lock of target tg i (any
+   assignment: whatever the flocks exclude), each copying the same source of sz chunks to the same destination by
+   fs.WriteFile's protocol (open a temporary sibling, write, close + chmod by name, rename by name; on failure
+   the target's outputs are removed), the NAME of the temporary file following the policy that gotrans
+   translates from fs.go (Gen/C34Copy.v write_file_temp, shared with the C34 check).  With the policy of the
+   source as it is - a name unique per call - and for EVERY schedule: no process fails, the destination is
+   never partial (absent or whole), and as soon as one process has finished the destination is whole and that
+   process's temporary name is gone. *)
+Theorem C31_shared_output_file :
+  forall (sz n : nat) (tg : nat -> nat) (sched : list nat),
+    let st := C31_TempFile.trun C31_TempFile.tpolicy_now sz n tg sched C31_TempFile.tinit in
+    (forall i, C31_TempFile.t_pc st i <> C31_TempFile.PFailed)
+    /\ (forall x, C31_TempFile.t_dir st C31_TempFile.ETo = Some x -> C31_TempFile.t_data st x = Some sz)
+    /\ (forall i, C31_TempFile.t_pc st i = C31_TempFile.PDone ->
+          C31_TempFile.t_dir st (C31_TempFile.ETmp i) = None
+          /\ exists x, C31_TempFile.t_dir st C31_TempFile.ETo = Some x /\ C31_TempFile.t_data st x = Some sz)
+    /\ C31_TempFile.tsafe sz n st = true.
+Proof.
+  exact (fun sz n tg sched =>
+    conj (proj1 (Proof.C31_TempFile.tempfile_unique_holds sz n tg sched))
+      (conj (proj1 (proj2 (Proof.C31_TempFile.tempfile_unique_holds sz n tg sched)))
+        (conj (proj2 (proj2 (Proof.C31_TempFile.tempfile_unique_holds sz n tg sched)))
+              (Proof.C31_TempFile.tempfile_now_safe sz n tg sched)))).
+Qed.
+Print Assumptions C31_shared_output_file.
+
+(* ... and that is what it rests on, not the lock: with ONE fixed temporary name and two different targets the
+   schedule of the race (0 opens, 1 opens the same name and empties the same inode, 0 copies, closes, renames it
+   away, 1 copies and fails on chmod of the vanished name, its failure path deletes the destination) ends with a
+   failed process and NO output although process 0 exited successfully; the same schedule with both processes
+   on the same target is harmless, because there the flock keeps the second one out (one schedule, by
+   computation; for one target the general statement is C31_critical_section). *)
+Theorem C31_per_target_lock_not_enough :
+  (let st := C31_TempFile.trun C31_TempFile.TFixed 3 2 (fun i => i) (C31_TempFile.race_sched 3) C31_TempFile.tinit in
+   C31_TempFile.tsafe 3 2 st = false /\ C31_TempFile.t_pc st 0 = C31_TempFile.PDone
+   /\ C31_TempFile.t_pc st 1 = C31_TempFile.PFailed /\ C31_TempFile.t_dir st C31_TempFile.ETo = None)
+  /\ (let st := C31_TempFile.trun C31_TempFile.TFixed 3 2 (fun _ => 0) (C31_TempFile.race_sched 3 ++ repeat 1 6) C31_TempFile.tinit in
+      C31_TempFile.tsafe 3 2 st = true /\ C31_TempFile.all_done 2 st = true /\ C31_TempFile.dest_whole 3 st = true).
+Proof. exact (conj Proof.C31_TempFile.fixed_name_races Proof.C31_TempFile.fixed_name_same_target). Qed.
+Print Assumptions C31_per_target_lock_not_enough.
+
+(* non-vacuity: under the policy of the source two processes on different targets DO write at the same time
+   (both part-way through), both finish, the second rename replaces the first one's result by an equal one, no
+   temporary name is left; what the correspondence check evaluates (shared_check) rejects an observed
+   interference *)
+Example C31_shared_output_file_nonvacuous :
+  C31_TempFile.tpolicy_now = C31_TempFile.TUnique
+  /\ (let mid := C31_TempFile.trun C31_TempFile.tpolicy_now 3 2 (fun i => i) [0; 1; 0; 1] C31_TempFile.tinit in
+      let fin := C31_TempFile.trun C31_TempFile.tpolicy_now 3 2 (fun i => i) (C31_TempFile.race_sched 3 ++ [1]) C31_TempFile.tinit in
+      C31_TempFile.t_pc mid 0 = C31_TempFile.PWriting 0 1 /\ C31_TempFile.t_pc mid 1 = C31_TempFile.PWriting 1 1
+      /\ C31_TempFile.all_done 2 fin = true /\ C31_TempFile.t_dir fin C31_TempFile.ETo = Some 1
+      /\ C31_TempFile.t_data fin 1 = Some 3 /\ C31_TempFile.t_dir fin (C31_TempFile.ETmp 0) = None
+      /\ C31_TempFile.model_safe_now 2 = true /\ C31_TempFile.shared_check 3 3 false = true
+      /\ C31_TempFile.shared_check 3 3 true = false).
+Proof. exact (conj Proof.C31_TempFile.now_unique Proof.C31_TempFile.ex_tempfile_nonvacuous). Qed.
 
 (* what the statement lists are, as regenerated from the source now; three processes on one target: one is
    inside holding the lock while another has not got past AcquireExclusiveFileLock; all three get through *)
